@@ -38,11 +38,14 @@ enum Outcome { O_SUCC = 0, O_FAIL, O_FLIP, O_NEVER, O_BLOCK, O_NOUT };   // FLIP
 // ops:  node <parent (-1 root)> <kind> <mode> <a> <b> <timeout_ms>
 //         leaf: mode = outcome, a = flip count, b bit0 = inverse flip, timeout = completion delay ms (0: inline)
 //         composite kinds: mode = the composite's mode, a = repeat times, timeout = action time-out (0: none)
-//       ctl <dt_ms> <0 pause,1 resume,2 stop,3 reset+start> <glued>    glued: issued right behind the previous control call, inside the same
+//       cfg real_leaves: leaves that succeed after a delay are SleepActions, leaves that answer at once are FunctionActions (a switch's
+//         selector stays a probe leaf: it names the case through its reason)
+//       ctl <dt_ms> <0 pause,1 resume,2 stop,3 reset+start once the tree is at rest,4 reset+start at any moment> <glued>    glued: issued right behind the previous control call, inside the same
 //                                                                      loop task (no notification is delivered in between)
 void generate(sim::Rng &r, uint64_t seed, const std::string &tier, sim::Plan &p) {
   bool thorough = tier == "thorough";
   p.cfg["backend"] = r.below(2);
+  p.cfg["real_leaves"] = r.chance(350) ? 1 : 0;
   bool use_par = r.chance(300), use_timeout = r.chance(250), use_ctl = r.chance(500), use_never = r.chance(200), use_block = r.chance(150);
   int n = (int)r.range(1, thorough ? 14 : 10);
   std::vector<int> kind, depth, nchild;
@@ -93,7 +96,7 @@ void generate(sim::Rng &r, uint64_t seed, const std::string &tier, sim::Plan &p)
     for (int i = 0; i < nc; ++i) {
       sim::Op op; op.kind = "ctl";
       unsigned x = (unsigned)r.below(100);
-      op.a = {r.chance(300) ? 0 : r.range(1, 40), x < 30 ? 0 : x < 65 ? 1 : x < 85 ? 2 : 3, r.chance(250) ? 1 : 0};
+      op.a = {r.chance(300) ? 0 : r.range(1, 40), x < 30 ? 0 : x < 65 ? 1 : x < 82 ? 2 : x < 93 ? 3 : 4, r.chance(250) ? 1 : 0};
       p.ops.push_back(op);
     }
   }
@@ -101,7 +104,7 @@ void generate(sim::Rng &r, uint64_t seed, const std::string &tier, sim::Plan &p)
 }
 
 // ---------------------------------------------------------------------- tree spec
-struct Spec { int parent = -1, kind = N_LEAF; long mode = 0, a = 0, b = 0, tmo = 0; std::vector<int> ch; };
+struct Spec { int parent = -1, kind = N_LEAF; long mode = 0, a = 0, b = 0, tmo = 0; std::vector<int> ch; int impl = 0; };
 
 struct Ev { int what; int node; long v; long t; };   // what: 0 leaf start, 1 root finish (v = result), 2 root block, 3 final hook, 4 leaf finished
 struct Run {
@@ -182,6 +185,47 @@ void ProbeLeaf::complete() {
   finish(result_now_, Reason(0, std::string("case:c") + std::to_string(starts_ % 2)));   // the selector names the case by the full role string
 }
 
+// the same bookkeeping for leaves that are the library's own actions
+void note_leaf_start(Tree *t, Loop &loop, int idx, long starts) {
+  ++t->leaf_starts;
+  if (t->leaf_starts > 300 && !t->overrun) {
+    t->overrun = true;
+    Tree *tt = t;
+    loop.runNext([tt] { if (tt->nodes[0] && tt->nodes[0]->isUnderway()) { tt->nodes[0]->stop(); if (tt->on_forced_stop) tt->on_forced_stop(); } }, "c17.overrun-stop");
+  }
+  if (idx >= 0) t->rec->ev.push_back(Ev{0, idx, starts, (long)(sim::now_ms() - t->t0_ms)});
+  sim::trace("leaf n%d start #%ld", idx, starts);
+  sim::relevant();
+}
+
+class ProbeSleep : public SleepAction {
+  public:
+    ProbeSleep(Loop &loop, Tree *t, int idx, long ms) : SleepAction(loop, std::chrono::milliseconds(std::max(1L, ms))), t_(t), idx_(idx) {}
+  protected:
+    void onStart() override { note_leaf_start(t_, loop_, idx_, ++starts_); SleepAction::onStart(); }
+    void onFinished(bool ok, const Reason &why, const Trace &trace) override { if (idx_ >= 0) t_->rec->ev.push_back(Ev{4, idx_, ok ? 1 : 0, (long)(sim::now_ms() - t_->t0_ms)}); SleepAction::onFinished(ok, why, trace); }
+    void onReset() override { starts_ = 0; SleepAction::onReset(); }
+  private:
+    Tree *t_; int idx_; long starts_ = 0;
+};
+
+class ProbeFunc : public FunctionAction {
+  public:
+    ProbeFunc(Loop &loop, Tree *t, int idx, const Spec &s) : FunctionAction(loop, FunctionAction::Func([this] { return body(); })), t_(t), idx_(idx), s_(s) {}
+  protected:
+    void onReset() override { starts_ = 0; FunctionAction::onReset(); }
+  private:
+    bool body() {
+      note_leaf_start(t_, loop_, idx_, ++starts_);
+      bool r = true;
+      if (s_.mode == O_FAIL) r = false;
+      else if (s_.mode == O_FLIP) { bool late = starts_ > s_.a; r = (s_.b & 1) ? !late : late; }
+      if (idx_ >= 0) t_->rec->ev.push_back(Ev{4, idx_, r ? 1 : 0, (long)(sim::now_ms() - t_->t0_ms)});
+      return r;
+    }
+    Tree *t_; int idx_; Spec s_; long starts_ = 0;
+};
+
 Action *build(Tree &T, int i) {
   const Spec &s = T.spec[(size_t)i];
   Loop &L = *T.loop;
@@ -198,7 +242,11 @@ Action *build(Tree &T, int i) {
     case N_REPEAT: { auto *x = new RepeatAction(L, child(0), (size_t)std::max(1L, std::min(4L, s.a)), static_cast<RepeatAction::Mode>(s.mode % 3)); a = x; break; }
     case N_WRAPPER: { auto *x = new WrapperAction(L, child(0), static_cast<WrapperAction::Mode>(s.mode % 4)); a = x; break; }
     case N_COMPOSITE: { auto *x = new CompositeAction(L, "Composite"); x->setChild(child(0)); a = x; break; }
-    default: a = new ProbeLeaf(L, &T, i, s); break;
+    default:
+      if (s.impl == 1) a = new ProbeSleep(L, &T, i, s.tmo);
+      else if (s.impl == 2) a = new ProbeFunc(L, &T, i, s);
+      else a = new ProbeLeaf(L, &T, i, s);
+      break;
   }
   if (s.kind != N_LEAF && s.tmo > 0) a->setTimeout(std::chrono::milliseconds(s.tmo));
   T.nodes[(size_t)i] = a;
@@ -325,6 +373,14 @@ void execute(const sim::Plan &plan) {
     if (id > 0) spec[(size_t)s.parent].ch.push_back(id);
   }
   if (spec.empty()) { Spec s; s.kind = N_SEQ; spec.push_back(s); }
+  if (plan.get("real_leaves")) for (size_t i = 1; i < spec.size(); ++i) {
+    Spec &s = spec[i];
+    if (s.kind != N_LEAF) continue;
+    const Spec &par = spec[(size_t)s.parent];
+    if (par.kind == N_SWITCH && !par.ch.empty() && par.ch[0] == (int)i) continue;       // the selector
+    if (s.mode == O_SUCC && s.tmo > 0) s.impl = 1;
+    else if ((s.mode == O_SUCC || s.mode == O_FAIL || s.mode == O_FLIP) && s.tmo == 0) s.impl = 2;
+  }
   bool has_par = false, has_tmo = false, has_never = false, has_block = false;
   for (const Spec &s : spec) { if (s.kind == N_PAR) has_par = true; if (s.kind != N_LEAF && s.tmo > 0) has_tmo = true; if (s.kind == N_LEAF && s.mode == O_NEVER) has_never = true; if (s.kind == N_LEAF && s.mode == O_BLOCK) has_block = true; }
 
@@ -344,14 +400,15 @@ void execute(const sim::Plan &plan) {
   with_start.clear();
   for (const sim::Op &op : plan.ops) { if (op.kind != "ctl") continue; if (op.arg(2) != 0) with_start.push_back(&op); else break; }
   auto do_ctl = [root](const sim::Op *o) {
-    long c = ((o->arg(1) % 4) + 4) % 4;
+    long c = ((o->arg(1) % 5) + 5) % 5;
     W.ctl_used = true;
     sim::trace("ctl %ld%s", c, o->arg(2) ? " (glued)" : "");
-    if (c != 3 && W.second_run) W.disturbed2 = true;
+    if (c < 3 && W.second_run) W.disturbed2 = true;
     if (c == 0) { if (root->isRunning()) { root->pause(); W.paused = true; } }
     else if (c == 1) { if (root->state() == Action::State::kPause) { root->resume(); W.paused = false; } }
     else if (c == 2) { if (root->isUnderway()) { root->stop(); W.stopped = true; check_nothing_underway(W.tree, "right after stop()"); } }
-    else if (!W.second_run && W.started && !root->isUnderway() && root->state() != Action::State::kIdle) {   // also in the window between finish() and the delivery of its notification
+    else if (!W.second_run && W.started && (c == 4 || !root->isUnderway()) && root->state() != Action::State::kIdle) {
+      if (root->isUnderway()) sim::probe("resets_while_underway");   // also in the window between finish() and the delivery of its notification
       // reset and run again: must behave like a freshly built tree
       root->reset();
       for (size_t i = 0; i < W.tree.nodes.size(); ++i) if (W.tree.nodes[i] && W.tree.nodes[i]->state() != Action::State::kIdle) { sim::violation("C17/reset-incomplete", sim::fmt("after reset() node n%zu is not idle", i)); break; }
@@ -426,7 +483,7 @@ void execute(const sim::Plan &plan) {
   // timed reference model: every tree (parallel, time-outs, never/blocking leaves, control calls), whenever the model can predict
   if (sim::violation_count() == 0 && W.started && !W.tree.overrun) {
     std::vector<c17ref::InSpec> in;
-    for (const Spec &s : spec) in.push_back(c17ref::InSpec{s.kind, s.mode, s.a, s.b, s.tmo, s.ch});
+    for (const Spec &s : spec) in.push_back(c17ref::InSpec{s.kind, s.mode, s.a, s.b, s.tmo, s.ch, s.impl});
     c17ref::Model M(in);
     std::vector<c17ref::Ctl> ctls; long at = 0;
     bool lead = true;      // control calls glued to start()
@@ -434,7 +491,7 @@ void execute(const sim::Plan &plan) {
       bool glued = op.arg(2) != 0 && (!ctls.empty() || lead);
       if (!glued) lead = false;
       if (!glued) at += std::max(0L, std::min(500L, op.arg(0)));
-      ctls.push_back(c17ref::Ctl{at, (int)(((op.arg(1) % 4) + 4) % 4), glued});
+      ctls.push_back(c17ref::Ctl{at, (int)(((op.arg(1) % 5) + 5) % 5), glued});
     }
     if (M.simulate(ctls, at + 20000)) {
       sim::probe("timed_reference_checks");
